@@ -34,16 +34,16 @@ npy_intp fix_offset(const ExtendMode mode, npy_intp cc, const npy_intp len) {
             if (len <= 1) {
                 return 0;
             } else {
-                int sz2 = 2 * len - 2;
-                cc = sz2 * (int)(-cc / sz2) + cc;
+                npy_intp sz2 = 2 * len - 2;
+                cc = sz2 * (npy_intp)(-cc / sz2) + cc;
                 return cc <= 1 - len ? cc + sz2 : -cc;
             }
         } else if (cc >= len) {
             if (len <= 1) {
                 return 0;
             } else {
-                int sz2 = 2 * len - 2;
-                cc -= sz2 * (int)(cc / sz2);
+                npy_intp sz2 = 2 * len - 2;
+                cc -= sz2 * (npy_intp)(cc / sz2);
                 if (cc >= len)
                     cc = sz2 - cc;
             }
@@ -55,9 +55,9 @@ npy_intp fix_offset(const ExtendMode mode, npy_intp cc, const npy_intp len) {
             if (len <= 1) {
                 return 0;
             } else {
-                int sz2 = 2 * len;
+                npy_intp sz2 = 2 * len;
                 if (cc < -sz2)
-                    cc = sz2 * (int)(-cc / sz2) + cc;
+                    cc = sz2 * (npy_intp)(-cc / sz2) + cc;
                 if (cc == 0)
                     return 0; /* an exact multiple of the period */
                 cc = cc < -len ? cc + sz2 : -cc - 1;
@@ -66,8 +66,8 @@ npy_intp fix_offset(const ExtendMode mode, npy_intp cc, const npy_intp len) {
             if (len <= 1) {
                 return 0;
             } else {
-                int sz2 = 2 * len;
-                cc -= sz2 * (int)(cc / sz2);
+                npy_intp sz2 = 2 * len;
+                cc -= sz2 * (npy_intp)(cc / sz2);
                 if (cc >= len)
                     cc = sz2 - cc - 1;
             }
@@ -78,8 +78,8 @@ npy_intp fix_offset(const ExtendMode mode, npy_intp cc, const npy_intp len) {
             if (len <= 1) {
                 return 0;
             } else {
-                int sz = len;
-                cc += sz * (int)(-cc / sz);
+                npy_intp sz = len;
+                cc += sz * (npy_intp)(-cc / sz);
                 if (cc < 0)
                     cc += sz;
             }
@@ -87,8 +87,8 @@ npy_intp fix_offset(const ExtendMode mode, npy_intp cc, const npy_intp len) {
             if (len <= 1) {
                 return 0;
             } else {
-                int sz = len;
-                cc -= sz * (int)(cc / sz);
+                npy_intp sz = len;
+                cc -= sz * (npy_intp)(cc / sz);
             }
         }
         return cc;
